@@ -472,6 +472,28 @@ def trace_cases(ctx):
         if all(well_nested(o) for _, o in ths):
             add("history-random", r.choice(["-", "proc"]), ths)
 
+    # thread NAMES as an input dimension: 2..8 threads alive at the same time (a W at the end keeps them all until a save), unnamed /
+    # distinctly named / all named alike / some sharing a name / named with the empty string; every thread records its own events
+    def own(k, n=3):
+        return ["B:own_%d_a:-" % k, "M:own_%d_b:cat%d" % (k, k % 2), "E"][:n] + ["C:own_%d_c:%d" % (k, k)]
+    for nt in (2, 3, 5, 8):
+        layouts = {"unnamed": ["-"] * nt, "distinct": ["n%d" % k for k in range(nt)], "all-alike": ["worker"] * nt,
+                   "some-shared": ["worker" if k % 2 else "n%d" % k for k in range(nt)], "empty-names": ["@e"] * nt,
+                   "mixed": [["-", "worker", "@e", "worker", "solo"][k % 5] for k in range(nt)]}
+        for lay, names in layouts.items():
+            add("names-%s-%d" % (lay, nt), r.choice(["-", "proc"]), [(names[k], own(k) + ["W"] + (["M:own_%d_after:-" % k] if k % 2 else [])) for k in range(nt)])
+
+    # texts with a double quote, a backslash, a control character: one kind of text at a time, and all at once (saveLog writes
+    # texts verbatim: open known finding C20-saveLog-texts-not-escaped; attributed to it only when the same case with plain
+    # letters in their place passes)
+    for label, txt in (("quote", 'say"hi'), ("backslash", "back\\slash"), ("control", "ctl\x01char")):
+        e = enc_text(txt)
+        add("text-%s-thread-name" % label, "-", [(e, ["M:m:-", "B:b:c", "E"])])
+        add("text-%s-event-name" % label, "-", [("t0", ["M:%s:-" % e, "B:b:c", "E", "C:%s:3" % e])])
+        add("text-%s-category" % label, "-", [("t0", ["M:m:%s" % e, "B:b:%s" % e, "E"])])
+        add("text-%s-process-name" % label, e, [("t0", ["M:m:-"])])
+    add("text-mixed", enc_text('p"\\'), [(enc_text('t\x02"'), ["B:%s:%s" % (enc_text('n"'), enc_text("c\\")), "E"]), ("plain", ["M:m:-"])])
+
     def worker(i):
         return ["B:evt_%d:demo" % i, "M:mrk_%d:demo" % i, "C:cnt_%d:%d" % (i, 1000 + i), "E"]
     # recording threads whose lifetimes do NOT overlap: started and joined one after the other (the system is free to give
@@ -579,6 +601,64 @@ def case_line(c):
     return s.replace("  ", " ").rstrip()
 
 
+def tok_text(t):
+    """token of a case line -> the text it stands for ("@x<hex>" = those bytes: quotes, backslashes, control characters)"""
+    if isinstance(t, str) and t.startswith("@x"):
+        return bytes.fromhex(t[2:]).decode("latin-1")
+    return t
+
+
+def enc_text(text):
+    return "@x" + text.encode("latin-1").hex()
+
+
+def name_text(tn):
+    """thread-name token of a case line -> the string passed to setThreadName ("@e" = the empty string)"""
+    return "" if tn == "@e" else tok_text(tn)
+
+
+SPECIAL = re.compile(r'["\\\x00-\x1f]')
+SIG_UNESCAPED = "C20-saveLog-texts-not-escaped"
+
+
+def case_tokens(c):
+    """every text token of a case: (kind, token)"""
+    out = [("process name", c["pname"])] if c["pname"] != "-" else []
+    for tn, ops in c["threads"]:
+        if tn not in ("-", "@e"):
+            out.append(("thread name", tn))
+        for o in ops:
+            f = o.split(":")
+            if f[0] in ("B", "M"):
+                out.append(("event name", f[1]))
+                if f[2] != "-":
+                    out.append(("category", f[2]))
+            elif f[0] == "C":
+                out.append(("event name", f[1]))
+    return out
+
+
+def special_texts(c):
+    return sorted(set((k, tok_text(t)) for k, t in case_tokens(c) if SPECIAL.search(tok_text(t))))
+
+
+def sanitized(c):
+    """the same case with every quote, backslash and control character replaced by the letter x"""
+    def fix(t):
+        tt = tok_text(t)
+        return SPECIAL.sub("x", tt) if SPECIAL.search(tt) else t
+
+    def fixop(o):
+        f = o.split(":")
+        if f[0] in ("B", "M"):
+            return "%s:%s:%s" % (f[0], fix(f[1]), f[2] if f[2] == "-" else fix(f[2]))
+        if f[0] == "C":
+            return "C:%s:%s" % (fix(f[1]), f[2])
+        return o
+    return dict(c, pname=c["pname"] if c["pname"] == "-" else fix(c["pname"]),
+                threads=[(tn if tn in ("-", "@e") else fix(tn), [fixop(o) for o in ops]) for tn, ops in c["threads"]], ids=None)
+
+
 def thread_groups(c):
     """The lists the recorder keeps: one per thread id.  Threads that record or name themselves, in starting order
     (phase, then position); threads that were given the same std::thread::id (c['ids'], observed in the run: the
@@ -595,8 +675,8 @@ def thread_groups(c):
             groups.append(byid[key])
         byid[key]["members"].append(i)
     for g in groups:
-        names = [c["threads"][i][0] for i in g["members"] if c["threads"][i][0] != "-"]
-        g["name"] = names[-1] if names else "-"        # the last setThreadName wins
+        names = [name_text(c["threads"][i][0]) for i in g["members"] if c["threads"][i][0] != "-"]
+        g["name"] = (names[-1] or "-") if names else "-"        # the last setThreadName wins; an empty name prints the id
         g["ops"] = [o for i in g["members"] for o in c["threads"][i][1]]
     return groups
 
@@ -645,13 +725,13 @@ def expected_events(ops):
     for o in ops:
         f = o.split(":")
         if f[0] == "B":
-            ev.append(("B", f[1], None if f[2] == "-" else f[2], None))
+            ev.append(("B", tok_text(f[1]), None if f[2] == "-" else tok_text(f[2]), None))
         elif f[0] == "E":
             ev.append(("E", "", None, None))
         elif f[0] == "M":
-            ev.append(("i", f[1], None if f[2] == "-" else f[2], None))
+            ev.append(("i", tok_text(f[1]), None if f[2] == "-" else tok_text(f[2]), None))
         elif f[0] == "C":
-            ev.append(("C", f[1], None, int(f[2])))
+            ev.append(("C", tok_text(f[1]), None, int(f[2])))
         elif f[0] == "R":            # recordMemUse(): two counters, values from /proc (any unsigned number)
             ev.append(("C", "rkTraceVirtMem_B", None, ANYNUM))
             ev.append(("C", "rkTraceRssMem_B", None, ANYNUM))
@@ -692,39 +772,51 @@ def trace_oracle(text, c):
     k = 0
     if c["pname"] != "-":
         o = objs[0] if objs else {}
-        if not (o.get("ph") == "M" and o.get("name") == "process_name" and o.get("args", {}).get("name") == c["pname"]):
+        if not (o.get("ph") == "M" and o.get("name") == "process_name" and o.get("args", {}).get("name") == tok_text(c["pname"])):
             pb.append("process_name metadata missing/wrong: %r" % (o,))
         k = 1
     groups = thread_groups(c)
     registered = list(range(len(groups)))
-    unnamed = [i for i in registered if groups[i]["name"] == "-"]
-    byname = {groups[i]["name"]: i for i in registered if groups[i]["name"] != "-"}
-    order, per, cur = [], {}, None
+    # the thread lists of the file, in file order: (printed name, objects)
+    entries = []
     pids = set()
     for o in objs[k:]:
         pids.add(o.get("pid"))
         if o.get("ph") == "M" and o.get("name") == "thread_name":
-            nm = o.get("args", {}).get("name")
-            if o.get("tid") != len(order):
+            if o.get("tid") != len(entries):
                 pb.append("thread ids not consecutive: %r" % (o,))
-            if nm in byname:
-                cur = byname[nm]
-            elif isinstance(nm, str) and nm.isdigit() and len(unnamed) == 1:
-                cur = unnamed[0]
-            else:
-                pb.append("unknown thread %r" % (nm,))
-                cur = None
-            order.append(cur)
-            per.setdefault(cur, [])
+            entries.append((o.get("args", {}).get("name"), []))
         else:
-            if cur is None or o.get("tid") != len(order) - 1:
+            if not entries or o.get("tid") != len(entries) - 1:
                 pb.append("event with wrong/unknown thread: %r" % (o,))
                 continue
-            per[cur].append(o)
+            entries[-1][1].append(o)
+
+    def plain(objs_):
+        return [(x.get("ph"), x.get("name"), x.get("cat"), x.get("args", {}).get("value") if x.get("ph") == "C" else None)
+                for x in objs_ if not (x.get("ph") == "C" and x.get("name") == "cpuUtilization" and x.get("cat") == "builtin")]
+
+    def name_fits(nm, g):
+        return (g["name"] == nm) if g["name"] != "-" else (isinstance(nm, str) and nm.isdigit())
+    # thread names are attributes, not keys: several threads may carry the same name (or none).  A list of the file is matched with
+    # a recording thread list of the same name whose events it holds (else with any unmatched one of that name)
+    order, per, free = [], {}, set(registered)
+    for (nm, eo) in entries:
+        cands = [i for i in sorted(free) if name_fits(nm, groups[i])]
+        exact = [i for i in cands if expected_events(groups[i]["ops"]) == plain(eo)]
+        cur = (exact or cands or [None])[0]
+        if cur is None:
+            pb.append("thread list named %r in the file matches no recording thread (names of the recording threads: %r)"
+                      % (nm, [g["name"] for g in groups]))
+        else:
+            free.discard(cur)
+            per[cur] = eo
+        order.append(cur)
     if len(pids) > 1:
         pb.append("several pids %r" % (pids,))
     if sorted(x for x in order if x is not None) != sorted(registered):
-        pb.append("thread lists in the file %r, thread lists that recorded %r (members %r)" % (order, registered, [g["members"] for g in groups]))
+        pb.append("thread lists in the file %r (names %r), thread lists that recorded %r (names %r, members %r)"
+                  % (order, [e[0] for e in entries], registered, [g["name"] for g in groups], [g["members"] for g in groups]))
     if not all(well_nested(g["ops"]) for g in groups):
         return pb, order           # completeness is only required of properly nested histories
     for i in registered:
@@ -981,6 +1073,7 @@ def run_trace(ctx, model, exe, public=False):
     overcases = set()
     hist = {}
     nreuse = 0
+    n_unescaped = 0
     for i, (path, infos) in enumerate(res):
         c = cases[i]
         hist[c["tag"].split("-")[0]] = hist.get(c["tag"].split("-")[0], 0) + 1
@@ -998,6 +1091,28 @@ def run_trace(ctx, model, exe, public=False):
         groups = thread_groups(c)
         nreuse += sum(1 for g in groups if len(g["members"]) > 1)
         pb, order = trace_oracle(text, c)
+        if pb and special_texts(c) and "history" not in c:
+            # a text with a quote / backslash / control character: is that the only thing wrong?  the same case with plain letters
+            sc = sanitized(c)
+            rc3, res3, _ = run_harness_trace(ctx, exe, [sc], os.path.join(ctx.build, "trace_shrink"))
+            ok3 = False
+            if rc3 == 0 and res3:
+                try:
+                    pb3, _o3 = trace_oracle(open(res3[0][0], errors="replace").read(), with_ids(sc, res3[0][1]))
+                    ok3 = not pb3
+                except OSError:
+                    ok3 = False
+            if ok3:
+                n_unescaped += 1
+                ctx.violation("saveLog: %s" % pb[0],
+                              {"case": case_line(c), "texts": ["%s %r" % kt for kt in special_texts(c)], "file": text[:2000], "problems": pb[:3],
+                               "same_case_with_plain_letters": case_line(sc) + "  -> passes",
+                               "required": "a well-formed JSON array in which every text decodes to the text given"},
+                              signature=SIG_UNESCAPED)
+                if ctx.finding_for(SIG_UNESCAPED) is not None:
+                    continue          # recorded as the known finding; nothing else is wrong with this case
+                reported.add(c["tag"])
+                continue
         if pb and c["tag"] not in reported and len(reported) < 3:
             reported.add(c["tag"])
             if "history" in c:
@@ -1099,6 +1214,7 @@ def run_trace(ctx, model, exe, public=False):
     ctx.cov["chunk_kinds_seen"] = chunks
     ctx.cov["chunks_over_capacity"] = len(overcases)
     ctx.cov["thread_id_reused_lists_seen"] = nreuse
+    ctx.cov["cases_attributed_to_" + SIG_UNESCAPED] = n_unescaped
     ctx.cov["trace_threads_histogram"] = {str(n): sum(1 for c in cases if len(c["threads"]) == n) for n in range(0, 9)}
 
 
